@@ -950,8 +950,14 @@ impl<'t> Gen<'t> {
                         args.push(("count".into(), Arg::Str(vec![self.var_piece(&nv)])));
                     }
                     _ => {
-                        let v = self.t.range(0, 120) as u64;
-                        args.push(("count".into(), Arg::U(v)));
+                        if self.t.chance(1, 3) {
+                            // decimal literal: the fraction digits matter for the plural category
+                            let f = *self.t.choose(&[1.5, 0.5, 1.1, 2.5, 0.1, 10.5, 1.25, 100.75, 1.0, 2.0, 0.0, 21.5, 3.5]);
+                            args.push(("count".into(), Arg::F(f)));
+                        } else {
+                            let v = self.t.range(0, 120) as u64;
+                            args.push(("count".into(), Arg::U(v)));
+                        }
                     }
                 },
                 _ => {}
